@@ -245,6 +245,10 @@ def tree_edits(program):
     for pf in ("net/client", "net/server"):
         yield f"W16 unknown packet family in {pf}", with_extra(pf, [packet("Nope", "Act", [field("q", "char")])]), None
         yield f"W16 unknown packet action in {pf}", with_extra(pf, [packet("Last", "Nope", [field("q", "char")])]), None
+        yield f"W16 action is a family name in {pf}", with_extra(pf, [packet("Last", "Last", [field("q", "char")])]), None
+        yield f"W16 family is an action name in {pf}", with_extra(pf, [packet("Act", "Act", [field("q", "char")])]), None
+        yield f"W16 action equals the family of an earlier packet in {pf}", with_extra(pf, [packet("Fam1", "Other", [field("q", "char")]), packet("Fam2", "Fam1", [field("r", "char")])]), None
+        yield f"W16 family equals the action of an earlier packet in {pf}", with_extra(pf, [packet("Fam1", "Other", [field("q", "char")]), packet("Other", "Act", [field("r", "char")])]), None
         yield f"W16 duplicate packet in {pf}", with_extra(pf, [packet("Last", "Other", [field("q", "char")]), packet("Last", "Other", [field("r", "char")])]), None
         yield f"W17 packet without family in {pf}", with_extra(pf, [N("packet", {"action": "Act"}, [field("q", "char")])]), None
         yield f"W17 packet without action in {pf}", with_extra(pf, [N("packet", {"family": "Last"}, [field("q", "char")])]), None
